@@ -367,9 +367,28 @@ class AllocCheck:
             cl = [c.split(".", 1)[1].split("(")[0] if "." in c else c for c in v["failed_clauses"]]
             is04 = any(c in self.C04_CLAUSES for c in cl)
             is12 = any(c not in self.C04_CLAUSES for c in cl) or v.get("exception")
+            if self.PROP == "C04" and is04 and all(c == "WF" or c not in self.C04_CLAUSES for c in cl) and not v.get("exception"):
+                # WF also says "free chunks never touch" (maximality: a C12 clause).  For C04 only its safety part counts:
+                # chunks in bounds, sorted and not overlapping -- re-evaluate that on the state the operation produced
+                is04 = not self._wf_safe_after(v)
+            if self.PROP == "C12" and "WF" in cl:
+                is12 = True
             if (self.PROP == "C04" and is04) or (self.PROP == "C12" and is12):
                 out.append(v)
         return out[:5]
+
+    def _wf_safe_after(self, case):
+        try:
+            ctxmod, cpu = _xo()
+            b = make_buffer(cpu, ctxmod, case["kind"], case["capacity"], [tuple(c) for c in case["chunks"]], case["alignment"], case["grow_step"])
+            getattr(b, case["op"])(**case["args"])
+            ch = [(c.start, c.end) for c in b.chunks]
+            ok = all(0 <= s <= e <= b.capacity for s, e in ch) and all(ch[i][1] <= ch[i + 1][0] for i in range(len(ch) - 1))
+            live = [tuple(r) for r in case["live"] if not (case["op"] == "free" and tuple(r) == (case["args"].get("offset"), case["args"].get("size")))]
+            ok = ok and all(n == 0 or all(e <= o or o + n <= s or s == e for s, e in ch) for o, n in live)
+            return ok and len(b.buffer) == b.capacity
+        except Exception:  # noqa
+            return False
 
     C04_HIST = ("offset", "region", "overlaps", "data")
 
